@@ -32,6 +32,9 @@ func driveRingBig(opt *Options) error {
 		if t%3 == 2 && c <= 20000 {
 			mk = newRingPtr
 		}
+		if t%5 == 4 && c <= 20000 {
+			mk = newRingAny // elements of an interface type
+		}
 		unit := t%7 == 3 // elements of size zero: only counts, errors and panics are observable
 		if unit {
 			mk = newRingUnit
